@@ -321,6 +321,12 @@ def execute(case):
         T = parse_stdout_sections(rs.stdout, cwd_abs, sc.root, known)
         # a file that opts out as a whole (inner skip attribute, ignore, @generated) has no section and is
         # never rewritten; every file that files mode rewrites must have one
+        for f in srcs:
+            if f in T and f not in W and T[f] != orig[f] and not core.abnormal(rs):
+                # files mode leaves the file alone, so what is on disk is its formatted text: stdout prints the same
+                v.add("C06:stdout-vs-untouched-file" + ("|line-endings-only" if _eol_only(orig[f], T[f]) else ""),
+                      "%s is left alone by files mode (%d bytes on disk) but --emit stdout prints %d other bytes for it" % (f, len(orig[f]), len(T[f])), file=f)
+                break
         if not W <= set(T) and not core.abnormal(rs):
             v.add("C06:stdout-sections", "stdout mode printed sections for %s, files mode rewrites %s" % (sorted(T), sorted(W)))
         if known - set(T):
